@@ -781,12 +781,102 @@ theorem bg_of_gi (lines : List (List Nat)) (g : Pos) (st : TState) (hl : LineOK 
   simp only [cur, hend, hl.max] at this
   exact Gap.congr_off he this
 
+/-- `break` happens only on a line that holds nothing but indentation (or on the empty line at the end of input) -/
+theorem lineHead_brk_ws (E : Env) (P : Pats) (st s : TState) (ts : List Tok5) (cont : Bool) (hpos : st.pos = 0) (hmax : st.max = st.line.size)
+    (h : lineHead E P st = .ok (s, ts, cont, true)) : allIn wsChar st.line 0 st.max := by
+  unfold lineHead at h
+  split at h
+  · split at h
+    · cases h
+    · injection h with h; injection h with _ h; injection h with _ h; injection h with _ h4; cases h4
+  · split at h
+    · split at h
+      · cases h
+      · injection h with h; injection h with _ h; injection h with _ h; injection h with _ h4; cases h4
+      · rename_i ts0 s0 h0
+        unfold nextStatement at h0
+        split at h0
+        · rename_i hemp
+          intro i _ hi
+          have : st.line.size = 0 := by simpa using hemp
+          omega
+        · simp only [] at h0
+          split at h0
+          · rename_i hge
+            have hws := measureIndent_ws P.tabsize st.line (st.max + 1) 0 st.pos
+            rw [hpos] at hws hge
+            intro i hi1 hi2
+            exact hws i hi1 (by simp only [ge_iff_le] at hge; omega)
+          · split at h0
+            · split at h0 <;> (injection h0 with h0; injection h0 with _ h0; injection h0 with _ h3; cases h3)
+            · split at h0
+              · cases h0
+              · injection h0 with h0; injection h0 with _ h0; injection h0 with _ h3; cases h3
+      · injection h with h; injection h with _ h; injection h with _ h; injection h with _ h4; cases h4
+    · split at h
+      · cases h
+      · injection h with h; injection h with _ h; injection h with _ h; injection h with _ h4; cases h4
+
+/-- after the ENDMARKER: what is left of the text is a final line of indentation only -/
+theorem brk_trailing (lines : List (List Nat)) (hnl : NonLastEndNL lines) (E : Env) (P : Pats) (st s : TState) (ts : List Tok5) (cont : Bool)
+    (rest : List (List Nat)) (hprev : PrevOK lines st) (hrest : rest = lines.drop st.lnum)
+    (hh : lineHead E P (st.moveNextLine (rest.headD [])) = .ok (s, ts, cont, true)) (hl' : s.lnum = st.lnum + 1) :
+    Gap lines ⟨s.lnum, 0⟩ ⟨lines.length + 1, 0⟩ := by
+  have hle : st.lnum ≤ lines.length := by
+    rcases hprev with ⟨h0, _⟩ | ⟨h1, hcur⟩
+    · omega
+    · have := (List.getElem?_eq_some_iff.mp hcur).1; omega
+  cases hr : rest with
+  | nil =>
+    have : lines.length ≤ st.lnum := by
+      have := hrest.symm.trans hr
+      exact List.drop_eq_nil_iff.mp this
+    have he : lines.length = st.lnum := by omega
+    rw [hl', he]; exact Gap.refl _ _
+  | cons l rest' =>
+    rw [hr] at hh
+    simp only [List.headD_cons] at hh
+    have hll : lines[st.lnum]? = some l := by
+      have : (lines.drop st.lnum)[0]? = some l := by rw [← hrest, hr]; rfl
+      simpa [List.getElem?_drop] using this
+    have hws := lineHead_brk_ws E P _ s ts cont (by simp [TState.moveNextLine]) (moveNextLine_max st l) hh
+    have hl0 : LineOK lines (st.moveNextLine l) :=
+      ⟨by simp [TState.moveNextLine], by simp only [TState.moveNextLine, Nat.add_sub_cancel, List.toList_toArray]; exact hll,
+       by simp [TState.moveNextLine], by simp [TState.moveNextLine]⟩
+    have hmx : (st.moveNextLine l).max = l.length := rfl
+    have hln : (st.moveNextLine l).lnum = st.lnum + 1 := rfl
+    have hgap : Gap lines ⟨st.lnum + 1, 0⟩ ⟨st.lnum + 1, l.length⟩ := by
+      have := Gap.on_line lines (st.moveNextLine l) hl0 0 l.length (Nat.zero_le _) (by rw [hmx]; exact Nat.le_refl _)
+        (allIn_mono ws_gap (by rw [hmx] at hws; exact hws))
+      rw [hln] at this; exact this
+    have hlast : lines.length = st.lnum + 1 := by
+      have hlt := (List.getElem?_eq_some_iff.mp hll).1
+      rcases Nat.lt_or_ge (st.lnum + 1) lines.length with hlt2 | hge
+      · exfalso
+        have h10 := hnl st.lnum l hll hlt2
+        cases hl : l with
+        | nil => rw [hl] at h10; simp at h10
+        | cons c cs =>
+          have hne : l ≠ [] := by rw [hl]; simp
+          have hidx : l.length - 1 < l.length := by rw [hl]; simp
+          obtain ⟨d, hd1, hd2⟩ := hws (l.length - 1) (Nat.zero_le _) (by rw [hmx]; exact hidx)
+          have hd1' : l[l.length - 1]? = some d := by simpa [TState.moveNextLine] using hd1
+          rw [List.getLast?_eq_getElem?] at h10
+          rw [h10] at hd1'
+          injection hd1' with hd1'
+          rw [← hd1'] at hd2
+          simp [wsChar] at hd2
+      · omega
+    have he := off_line_end lines (st.lnum + 1) l (by omega) (by simpa using hll)
+    rw [hl', hlast]
+    exact Gap.congr_off he hgap
+
 /-- the whole line loop: between consecutive tokens (and before the first) there are gap characters only -/
-theorem tokenizeLines_g (lines : List (List Nat)) (E : Env) (P : Pats) (hP : PseudoProgress P) (hF : FstrLen P) (hE : FstrEnds P) (hEG : EndGap P) :
+theorem tokenizeLines_g (lines : List (List Nat)) (hnl : NonLastEndNL lines) (E : Env) (P : Pats) (hP : PseudoProgress P) (hF : FstrLen P) (hE : FstrEnds P) (hEG : EndGap P) :
     ∀ (fuel : Nat) (rest : List (List Nat)) (st : TState) (acc out : List Tok5) (hw g0 : Pos),
       st.max = st.line.size → OI hw st.endProgs ⟨st.lnum, st.max⟩ → BT lines st → PrevOK lines st → rest = lines.drop st.lnum →
       Gaps lines g0 acc → BG lines (lastStop g0 acc) st → MidOK lines acc →
-      tokenizeLines E P fuel rest st acc = .ok out → Gaps lines g0 out := by
+      tokenizeLines E P fuel rest st acc = .ok out → Gaps lines g0 out ∧ Gap lines (lastStop g0 out) ⟨lines.length + 1, 0⟩ := by
   intro fuel
   induction fuel with
   | zero => intro rest st acc out hw g0 _ _ _ _ _ _ _ _ h; simp [tokenizeLines] at h
@@ -812,7 +902,9 @@ theorem tokenizeLines_g (lines : List (List Nat)) (E : Env) (P : Pats) (hP : Pse
         have hg1 : Gap lines (lastStop g0 acc) ⟨st.lnum, st.line.toList.length⟩ := Gap.congr_off hoff.symm (hbg.2 hB)
         have := nextEndTokens_g lines (lastStop g0 acc) st.line.toList st.commentLine s
           (by rw [hl', Nat.add_sub_cancel]; exact hoff) (by rw [hl', Nat.add_sub_cancel]; exact hg1)
-        exact Gaps.append hacc this.1
+        refine ⟨Gaps.append hacc this.1, ?_⟩
+        rw [lastStop_append, this.2]
+        exact brk_trailing lines hnl E P st s ts cont rest hprev hrest hh hl'
       · rename_i hnb
         have hnb' : brk = false := by simpa using hnb
         cases hr : rest with
